@@ -109,7 +109,8 @@ class Spec:
 class Lowering:
     def __init__(self, spec):
         self.spec = spec
-        docs = dump_ast(spec.source, spec.options.get('astfilter', 'ephemeralnet').replace('none', ''))
+        docs = dump_ast(spec.source, spec.options.get('astfilter', 'ephemeralnet').replace('none', ''),
+                        tolerate=spec.options.get('ast_errors') == 'tolerate')
         self.ix = Index(docs, spec.source)
         self.typedefs = []          # ordered C typedef text
         self.typedef_names = {}
